@@ -489,6 +489,66 @@ def _bpki_privkey(unwrap, badpwd=False):
     return build
 
 
+def _der_len(n):
+    if n < 128:
+        return bytes([n])
+    b = n.to_bytes((n.bit_length() + 7) // 8, "big")
+    return bytes([0x80 | len(b)]) + b
+
+
+def _der_tl(b, i):
+    """(tag, length, header size) of the TLV starting at b[i] (one-octet tags only)"""
+    tag = b[i]
+    l0 = b[i + 1]
+    if l0 < 128:
+        return tag, l0, 2
+    k = l0 & 0x7F
+    return tag, int.from_bytes(b[i + 2:i + 2 + k], "big"), 2 + k
+
+
+def _oversize_container(cont, newlen, rng):
+    """PKCS#8-style container SEQ { SEQ alg, OCTET STRING encData }: replace encData by newlen random octets"""
+    tag, ln, h = _der_tl(cont, 0)
+    if tag != 0x30:
+        raise Harness("container is not a SEQUENCE")
+    t1, l1, h1 = _der_tl(cont, h)
+    first = cont[h:h + h1 + l1]
+    t2, l2, h2 = _der_tl(cont, h + h1 + l1)
+    if t2 != 0x04:
+        raise Harness("second element is not an OCTET STRING")
+    body = first + b"\x04" + _der_len(newlen) + rb(rng, newlen)
+    return b"\x30" + _der_len(len(body)) + body
+
+
+def _bpki_privkey_oversized(lib, rng, size):
+    """error exit on an admissible-looking but oversized container: encData long enough to need a larger blob"""
+    klen = rng.choice([32, 48, 64])
+    salt = rb(rng, 8)
+    it = 10000
+    newlen = rng.choice([977, 1100, 2100, 5000])
+    c = Call("bpkiPrivkeyUnwrap:oversized", lib.bpkiPrivkeyUnwrap, "oversized-container")
+    c.expect_ok = False
+    filler = random.Random(rng.getrandbits(32))
+    fs = filler.getstate()
+    for v in c.v:
+        priv, pwd = rb(rng, klen), rb(rng, 12)
+        ln = lib.alloc(8, 0)
+        if lib.bpkiPrivkeyWrap(0, ln, lib.mk(priv), klen, lib.mk(pwd), 12, lib.mk(salt), it) != ERR_OK:
+            raise Harness("bpkiPrivkeyWrap size probe failed")
+        n = lib.rd_size(ln)
+        epki = lib.alloc(n)
+        if lib.bpkiPrivkeyWrap(epki, lib.alloc(8, 0), lib.mk(priv), klen, lib.mk(pwd), 12, lib.mk(salt), it) != ERR_OK:
+            raise Harness("bpkiPrivkeyWrap failed")
+        filler.setstate(fs)          # the same filler octets in both twins
+        cont = _oversize_container(lib.rd(epki, n), newlen, filler)
+        out = lib.alloc(newlen)
+        v.args = [out, lib.alloc(8, 0), lib.mk(cont), len(cont), lib.mk(pwd), 12]
+        v.outs = [(out, newlen)]
+        v.pub = [cont]
+        v.needles = [pwd, priv]
+    return c
+
+
 BUILDERS = {
     "beltECBEncr": _belt_mode("beltECBEncr", 16, 1, with_iv=False), "beltECBDecr": _belt_mode("beltECBDecr", 16, 1, with_iv=False),
     "beltCBCEncr": _belt_mode("beltCBCEncr", 16, 1), "beltCBCDecr": _belt_mode("beltCBCDecr", 16, 1),
@@ -510,6 +570,7 @@ BUILDERS = {
     "belsShare": _bels_share, "belsRecover": _bels_recover,
     "bpkiPrivkeyWrap": _bpki_privkey(False), "bpkiPrivkeyUnwrap": _bpki_privkey(True),
     "bpkiPrivkeyUnwrap:bad": _bpki_privkey(True, True),
+    "bpkiPrivkeyUnwrap:oversized": _bpki_privkey_oversized,
 }
 HEAVY = {"bignSign", "bignSign2", "bignKeypairGen", "bignPubkeyCalc", "bignDH", "bignKeyWrap", "bignKeyUnwrap",
-         "bignKeyUnwrap:bad", "bignKeyUnwrap:short", "bpkiPrivkeyWrap", "bpkiPrivkeyUnwrap", "bpkiPrivkeyUnwrap:bad"}
+         "bignKeyUnwrap:bad", "bignKeyUnwrap:short", "bpkiPrivkeyWrap", "bpkiPrivkeyUnwrap", "bpkiPrivkeyUnwrap:bad", "bpkiPrivkeyUnwrap:oversized"}
